@@ -7,8 +7,10 @@ package main
 import (
 	"fmt"
 	"go/ast"
+	"go/constant"
 	"go/token"
 	"go/types"
+	"sort"
 	"strings"
 )
 
@@ -99,6 +101,107 @@ type extractor struct {
 	problems []string
 	aliases  map[types.Object]*types.Var // local -> field it is stored to / loaded from
 	depth    int
+	// positional buffers: a local byte array / slice that is filled (writer) or examined (reader) by offset —
+	// hdr[0] = b, binary.LittleEndian.PutUint32(hdr[1:5], v), v = binary.LittleEndian.Uint32(hdr[1:5]) — and
+	// moved to / from the stream in one call. Its items are placed in offset order where it meets the stream.
+	pos     map[types.Object][]posItem
+	nest    int                  // block nesting of the statement being abstracted
+	pending map[types.Object]int // reader: placeholder marker of the fill event
+	marks   int
+}
+
+type posItem struct {
+	off, nest int
+	it        Item
+}
+
+// posBufOf: e is (a slice of) a local byte array or byte slice: hdr, hdr[:], hdr[a:b], &hdr. Returns the
+// variable and the constant offset of the window (-1 when the lower bound is not constant).
+func (x *extractor) posBufOf(e ast.Expr) (types.Object, int, int) {
+	e = ast.Unparen(e)
+	off, hi := 0, -1
+	if sl, ok := e.(*ast.SliceExpr); ok {
+		if sl.Low != nil {
+			cv := x.f.constOf(sl.Low)
+			if cv == nil {
+				return nil, -1, -1
+			}
+			n, _ := constant.Int64Val(cv)
+			off = int(n)
+		}
+		if sl.High != nil {
+			if cv := x.f.constOf(sl.High); cv != nil {
+				n, _ := constant.Int64Val(cv)
+				hi = int(n)
+			}
+		}
+		e = ast.Unparen(sl.X)
+	}
+	id, ok := e.(*ast.Ident)
+	if !ok {
+		return nil, -1, -1
+	}
+	obj, ok := x.f.ObjOf(id).(*types.Var)
+	if !ok || obj.IsField() || obj.Pkg() == nil || obj.Parent() == obj.Pkg().Scope() {
+		return nil, -1, -1
+	}
+	t := obj.Type().Underlying()
+	if a, ok := t.(*types.Array); ok {
+		if b, ok := a.Elem().Underlying().(*types.Basic); ok && b.Kind() == types.Uint8 {
+			return obj, off, hi
+		}
+		return nil, -1, -1
+	}
+	if isByteSlice(obj.Type()) {
+		return obj, off, hi
+	}
+	return nil, -1, -1
+}
+
+func (x *extractor) addPos(obj types.Object, off int, it Item) {
+	if x.pos == nil {
+		x.pos = map[types.Object][]posItem{}
+	}
+	x.pos[obj] = append(x.pos[obj], posItem{off: off, nest: x.nest, it: it})
+}
+
+// takePos returns the items recorded for a positional buffer in offset order; gaps, overlaps and items
+// recorded under a different nesting than the transfer make the grammar undecidable.
+func (x *extractor) takePos(obj types.Object, at token.Pos) ([]Item, bool) {
+	ps := x.pos[obj]
+	if len(ps) == 0 {
+		return nil, false
+	}
+	delete(x.pos, obj)
+	sort.SliceStable(ps, func(i, j int) bool { return ps[i].off < ps[j].off })
+	var out []Item
+	next := 0
+	for _, p := range ps {
+		if p.off != next {
+			x.problems = append(x.problems, fmt.Sprintf("positional buffer %s: bytes %d..%d are not described (or described twice) at %s", obj.Name(), next, p.off, x.f.w.Pos(at)))
+		}
+		if p.nest != x.nest {
+			x.problems = append(x.problems, fmt.Sprintf("positional buffer %s is filled under another condition than it is transferred at %s", obj.Name(), x.f.w.Pos(at)))
+		}
+		next = p.off + p.it.Width
+		out = append(out, p.it)
+	}
+	if a, ok := obj.Type().Underlying().(*types.Array); ok && int(a.Len()) != next {
+		x.problems = append(x.problems, fmt.Sprintf("positional buffer %s has %d bytes, %d are described at %s", obj.Name(), a.Len(), next, x.f.w.Pos(at)))
+	}
+	return out, true
+}
+
+func putWidth(name string) int {
+	switch {
+	case strings.HasSuffix(name, "int16"):
+		return 2
+	case strings.HasSuffix(name, "int32"):
+		return 4
+	case strings.HasSuffix(name, "int64"):
+		return 8
+	}
+	return 0
 }
 
 func basicWidth(t types.Type) int {
@@ -209,6 +312,10 @@ func (x *extractor) ioItem(call *ast.CallExpr) (Item, bool, bool) {
 		if x.stream != nil && x.streamOf(sel.X) != x.stream {
 			return Item{}, false, true
 		}
+		if obj, off, _ := x.posBufOf(call.Args[0]); obj != nil && off == 0 && len(x.pos[obj]) > 0 {
+			items, _ := x.takePos(obj, call.Pos())
+			return Item{Kind: itLoop, Ref: "splice", Body: items, Pos: call.Pos(), Cond: "splice"}, true, true
+		}
 		// splice of another buffer?
 		if inner, ok := ast.Unparen(call.Args[0]).(*ast.CallExpr); ok && f.CallIs(inner, "bytes.Buffer.Bytes") {
 			other := x.streamOf(inner.Fun.(*ast.SelectorExpr).X)
@@ -219,7 +326,12 @@ func (x *extractor) ioItem(call *ast.CallExpr) (Item, bool, bool) {
 				return Item{Kind: itLoop, Ref: "splice", Body: items, Pos: call.Pos(), Cond: "splice"}, true, true
 			}
 		}
-		return Item{Kind: itBytes, Field: x.fieldOf(call.Args[0]), Ref: exprKey(call.Args[0]), Pos: call.Pos()}, true, true
+		if mk, ok := ast.Unparen(call.Args[0]).(*ast.CallExpr); ok {
+			if id, ok := mk.Fun.(*ast.Ident); ok && id.Name == "make" {
+				return Item{Kind: itPad, Ref: exprKey(call.Args[0]), Pos: call.Pos()}, true, true
+			}
+		}
+		return Item{Kind: itBytes, Field: x.fieldOf(call.Args[0]), Ref: exprKey(call.Args[0]), Pos: call.Pos(), Expr: call.Args[0]}, true, true
 	case f.CallIs(call, "bytes.Buffer.Read") && !x.writer:
 		sel := call.Fun.(*ast.SelectorExpr)
 		if x.stream != nil && x.streamOf(sel.X) != x.stream {
@@ -232,8 +344,87 @@ func (x *extractor) ioItem(call *ast.CallExpr) (Item, bool, bool) {
 			return Item{}, false, true
 		}
 		return Item{Kind: itPad, Ref: exprKey(call.Args[0]), Pos: call.Pos()}, true, true
+	case x.writer && f.CallIs(call, "bytes.Buffer.WriteByte"):
+		sel := call.Fun.(*ast.SelectorExpr)
+		if x.stream != nil && x.streamOf(sel.X) != x.stream {
+			return Item{}, false, true
+		}
+		return Item{Kind: itScalar, Width: 1, Field: x.fieldOf(call.Args[0]), Ref: exprKey(call.Args[0]), Pos: call.Pos(), Expr: call.Args[0]}, true, true
+	case x.writer && f.CallIs(call, "bytes.Buffer.WriteString"):
+		sel := call.Fun.(*ast.SelectorExpr)
+		if x.stream != nil && x.streamOf(sel.X) != x.stream {
+			return Item{}, false, true
+		}
+		return Item{Kind: itBytes, Field: x.fieldOf(call.Args[0]), Ref: exprKey(call.Args[0]), Pos: call.Pos(), Expr: call.Args[0]}, true, true
+	case !x.writer && f.CallIs(call, "bytes.Buffer.ReadByte"):
+		sel := call.Fun.(*ast.SelectorExpr)
+		if x.stream != nil && x.streamOf(sel.X) != x.stream {
+			return Item{}, false, true
+		}
+		return Item{Kind: itScalar, Width: 1, Ref: exprKey(call), Pos: call.Pos()}, true, true
+	case x.writer && f.CallIs(call, "binary.littleEndian.PutUint16", "binary.littleEndian.PutUint32", "binary.littleEndian.PutUint64", "binary.bigEndian.PutUint16", "binary.bigEndian.PutUint32", "binary.bigEndian.PutUint64"):
+		obj, off, hi := x.posBufOf(call.Args[0])
+		if obj == nil {
+			return Item{}, false, false
+		}
+		name := f.Callee(call).Name()
+		w := putWidth(name)
+		if strings.HasPrefix(calleeKey(f.Callee(call)), "binary.bigEndian") {
+			x.problems = append(x.problems, "byte order BigEndian at "+f.w.Pos(call.Pos()))
+		}
+		if hi >= 0 && hi-off != w {
+			x.problems = append(x.problems, fmt.Sprintf("%s into a window of %d bytes at %s", name, hi-off, f.w.Pos(call.Pos())))
+		}
+		x.addPos(obj, off, Item{Kind: itScalar, Width: w, Field: x.fieldOf(call.Args[1]), Ref: exprKey(call.Args[1]), Pos: call.Pos(), Expr: call.Args[1]})
+		return Item{}, false, true
+	case !x.writer && f.CallIs(call, "binary.littleEndian.Uint16", "binary.littleEndian.Uint32", "binary.littleEndian.Uint64", "binary.bigEndian.Uint16", "binary.bigEndian.Uint32", "binary.bigEndian.Uint64"):
+		obj, off, hi := x.posBufOf(call.Args[0])
+		if obj == nil {
+			return Item{}, false, false
+		}
+		if _, filled := x.pending[obj]; !filled {
+			return Item{}, false, false
+		}
+		name := f.Callee(call).Name()
+		w := putWidth(name)
+		if strings.HasPrefix(calleeKey(f.Callee(call)), "binary.bigEndian") {
+			x.problems = append(x.problems, "byte order BigEndian at "+f.w.Pos(call.Pos()))
+		}
+		if hi >= 0 && hi-off != w {
+			x.problems = append(x.problems, fmt.Sprintf("%s of a window of %d bytes at %s", name, hi-off, f.w.Pos(call.Pos())))
+		}
+		x.addPos(obj, off, Item{Kind: itScalar, Width: w, Field: x.readTarget(call), Ref: exprKey(call), Pos: call.Pos()})
+		return Item{}, false, true
+	}
+	// a positional buffer meets the stream: Write(hdr[:]) / WriteAt(hdr[:], 0) / io.ReadFull(r, hdr[:]) / Read(hdr[:])
+	if x.writer && f.CallIs(call, "bytes.Buffer.Write", "os.File.WriteAt", "os.File.Write", "io.Writer.Write", "io.WriterAt.WriteAt") && len(call.Args) >= 1 {
+		if obj, off, _ := x.posBufOf(call.Args[0]); obj != nil && off == 0 && len(x.pos[obj]) > 0 {
+			if sel, ok := call.Fun.(*ast.SelectorExpr); ok && x.stream != nil && f.CallIs(call, "bytes.Buffer.Write") && x.streamOf(sel.X) != x.stream {
+				return Item{}, false, true
+			}
+			items, _ := x.takePos(obj, call.Pos())
+			return Item{Kind: itLoop, Ref: "splice", Body: items, Pos: call.Pos(), Cond: "splice"}, true, true
+		}
 	}
 	return Item{}, false, false
+}
+
+// readTarget: the field a value read by `call` is stored into (x.f = call(...) possibly through a conversion).
+func (x *extractor) readTarget(call *ast.CallExpr) *types.Var {
+	var out *types.Var
+	ast.Inspect(x.f.Decl.Body, func(n ast.Node) bool {
+		as, ok := n.(*ast.AssignStmt)
+		if !ok || len(as.Lhs) != len(as.Rhs) {
+			return true
+		}
+		for i, r := range as.Rhs {
+			if ast.Unparen(x.f.stripConv(r)) == ast.Expr(call) {
+				out = x.fieldOf(as.Lhs[i])
+			}
+		}
+		return true
+	})
+	return out
 }
 
 func (x *extractor) exprItems(n ast.Node) []Item {
@@ -260,6 +451,8 @@ func (x *extractor) exprItems(n ast.Node) []Item {
 
 func (x *extractor) block(stmts []ast.Stmt) []Item {
 	var out []Item
+	x.nest++
+	defer func() { x.nest-- }()
 	for i, s := range stmts {
 		items := x.stmt(s)
 		// `if C { continue }` guards everything that follows in this iteration: the rest of the block is
@@ -371,6 +564,18 @@ func (x *extractor) stmt(s ast.Stmt) []Item {
 		}
 		return out
 	case *ast.AssignStmt:
+		// hdr[k] = b: one byte of a positional buffer
+		if x.writer && len(y.Lhs) == 1 && len(y.Rhs) == 1 && y.Tok == token.ASSIGN {
+			if ix, ok := ast.Unparen(y.Lhs[0]).(*ast.IndexExpr); ok {
+				if obj, _, _ := x.posBufOf(ix.X); obj != nil {
+					if cv := x.f.constOf(ix.Index); cv != nil {
+						n, _ := constant.Int64Val(cv)
+						x.addPos(obj, int(n), Item{Kind: itScalar, Width: 1, Field: x.fieldOf(y.Rhs[0]), Ref: exprKey(y.Rhs[0]), Pos: y.Pos(), Expr: y.Rhs[0]})
+						return x.exprItems(y.Rhs[0])
+					}
+				}
+			}
+		}
 		// local alias: `cell.valueBytes = strBuf` / `v := n.field`
 		if len(y.Lhs) == 1 && len(y.Rhs) == 1 {
 			if sel, ok := ast.Unparen(y.Lhs[0]).(*ast.SelectorExpr); ok {
@@ -431,6 +636,13 @@ func flattenSplices(items []Item) []Item {
 		}
 		it.Body = flattenSplices(it.Body)
 		it.Else = flattenSplices(it.Else)
+		if it.Arms != nil {
+			arms := map[string][]Item{}
+			for k, a := range it.Arms {
+				arms[k] = flattenSplices(a)
+			}
+			it.Arms = arms
+		}
 		out = append(out, it)
 	}
 	return out
